@@ -34,7 +34,7 @@ import (
 type sTask struct {
 	ID      string `json:"id"`
 	File    string `json:"file,omitempty"`
-	Payload []byte `json:"payload,omitempty"` // explicit payload (nil for a baked range)
+	Payload []byte `json:"payload"` // explicit payload (nil for a baked range; an empty non-nil payload is an explicit, empty message)
 	Start   int    `json:"start,omitempty"`
 	End     int    `json:"end,omitempty"`
 }
@@ -167,9 +167,8 @@ func (b sBatch) request(batchID string, now time.Time) requests.SigningBatchProp
 		st := requests.SigningTask{MessageID: t.ID, File: t.File}
 		if t.Payload != nil {
 			st.Payload = t.Payload
-		} else {
-			st.RangeStart, st.RangeEnd = t.Start, t.End
 		}
+		st.RangeStart, st.RangeEnd = t.Start, t.End // (explicit tasks carry zeros unless the plan says otherwise)
 		r.SigningTasks = append(r.SigningTasks, st)
 	}
 	return r
@@ -582,6 +581,8 @@ func genPayloadTask(rt *rapid.T, k int, big bool) sTask {
 		} else {
 			pl = rapid.SliceOfN(rapid.Byte(), 97, 300).Draw(rt, "payload")
 		}
+	case 5:
+		pl = []byte{} // an empty file: still an explicit message, to be signed as such
 	case 2, 3, 4:
 		pl = []byte("same payload twice") // duplicates across tasks
 	default:
@@ -589,7 +590,11 @@ func genPayloadTask(rt *rapid.T, k int, big bool) sTask {
 	}
 	names := []string{"plain.txt", "with space.bin", "файл-юникод.dat", "a/b/../c.json", "tab\tname", "名前", "x"}
 	file := rapid.SampledFrom(names).Draw(rt, "file") + "#" + strconv.Itoa(k)
-	return sTask{ID: fmt.Sprintf("msg-%d-%s", k, rapid.StringMatching(`[a-zA-Z0-9_]{1,8}`).Draw(rt, "id")), File: file, Payload: pl}
+	tk := sTask{ID: fmt.Sprintf("msg-%d-%s", k, rapid.StringMatching(`[a-zA-Z0-9_]{1,8}`).Draw(rt, "id")), File: file, Payload: pl}
+	if len(pl) == 0 && rapid.Bool().Draw(rt, "strayRange") {
+		tk.Start, tk.End = 0, 2 // range bounds next to an (empty) explicit payload are without meaning
+	}
+	return tk
 }
 
 // genBakedTask draws a baked range (width small; boundaries favoured).
